@@ -209,10 +209,12 @@ def main(argv=None):
     # ---- aggregate
     obligs = {}
     controls = {}
+    bounded_names = {}
     for r in results:
         for name, o in r.obligs.items():
-            if prop in name.split("/")[0] or True:
-                obligs[name] = o
+            obligs[name] = o
+            if getattr(r, "bounded", None):
+                bounded_names[name] = r.bounded
         for name, o in r.controls.items():
             controls[name] = o
     known = load_known()
@@ -233,7 +235,8 @@ def main(argv=None):
         for b, n in o["backends"].items():
             backends[b] = backends.get(b, 0) + n
         if o["status"] == "valid":
-            n_valid += 1
+            if name not in bounded_names:
+                n_valid += 1
         elif o["status"] == "unknown":
             undecided.append((name, o))
         else:
@@ -298,10 +301,12 @@ def main(argv=None):
     # ---- evidence
     if not args.no_evidence and not args.only:
         write_evidence(prop, tier, seed, results, obligs, controls, n_valid, violations, undecided,
-                       backends, solver_time, max_time, kf_reported, wall, api, crashes)
-    print("%s: %d obligations, %d discharged, %d refuted, %d undecided, %d negative controls refuted "
+                       backends, solver_time, max_time, kf_reported, wall, api, crashes, bounded_names)
+    print("%s: %d obligations, %d discharged%s, %d refuted, %d undecided, %d negative controls refuted "
           "(%d VCs, %.1fs wall, solver %.1fs)"
-          % (prop, len(obligs), n_valid, len(violations), len(undecided),
+          % (prop, len(obligs) - len(bounded_names), n_valid,
+             (" (+%d bounded stand-in obligations, not counted)" % len(bounded_names)) if bounded_names else "",
+             len(violations), len(undecided),
              sum(1 for o in controls.values() if o["status"] == "refuted"),
              sum(o["vcs"] for o in obligs.values()), wall, solver_time))
     if args.verbose:
@@ -329,7 +334,8 @@ def _jsonable(m):
 
 
 def write_evidence(prop, tier, seed, results, obligs, controls, n_valid, violations, undecided,
-                   backends, solver_time, max_time, kf_reported, wall, api, crashes):
+                   backends, solver_time, max_time, kf_reported, wall, api, crashes, bounded_names=None):
+    bounded_names = bounded_names or {}
     functions = sorted({c.target for c in api.REGISTRY if c.prop == prop or prop in c.also})
     trusted = set()
     havoc = set()
@@ -368,8 +374,10 @@ def write_evidence(prop, tier, seed, results, obligs, controls, n_valid, violati
         "seed": seed,
         "level": "proof",
         "coverage": {
-            "obligations": len(obligs),
+            "obligations": len(obligs) - len(bounded_names),
             "discharged": n_valid,
+            "bounded_standin_obligations": {n: {"bound": b, "status": obligs[n]["status"]}
+                                            for n, b in sorted(bounded_names.items())},
             "checker_cmd": "./check %s --tier %s" % (prop, tier),
             "trusted_base": sorted(trusted) + ["dropped at extraction: " + d for d in DROPPED]
                             + sorted("over-approximated: " + h for h in havoc),
